@@ -1,0 +1,38 @@
+//go:build verif
+
+package unicodedata
+
+import "unicode"
+
+// Read-only accessors used by the external verification harness (build tag "verif").
+// They expose the unexported tables exactly as the lookup functions walk them.
+
+// VerifCombiningClasses returns the table list scanned by LookupCombiningClass.
+func VerifCombiningClasses() []*unicode.RangeTable { return combiningClasses[:] }
+
+// VerifLineBreaks returns the table list scanned by LookupLineBreakClass.
+func VerifLineBreaks() []*unicode.RangeTable { return lineBreaks[:] }
+
+// VerifGraphemeBreaks returns the pre-filter table and the table list scanned by LookupGraphemeBreakClass.
+func VerifGraphemeBreaks() (*unicode.RangeTable, []*unicode.RangeTable) {
+	return graphemeBreakAll, graphemeBreaks[:]
+}
+
+// VerifWordBreaks returns the pre-filter table and the table list scanned by LookupWordBreakClass.
+func VerifWordBreaks() (*unicode.RangeTable, []*unicode.RangeTable) {
+	return wordBreakAll, wordBreaks[:]
+}
+
+// VerifComposePairs calls f for every entry of the composition table.
+func VerifComposePairs(f func(a, b, ab rune)) {
+	for k, v := range compose {
+		f(k[0], k[1], v)
+	}
+}
+
+// VerifMirroringPairs calls f for every entry of the mirroring table.
+func VerifMirroringPairs(f func(a, b rune)) {
+	for k, v := range mirroring {
+		f(k, v)
+	}
+}
